@@ -169,7 +169,7 @@ fn malform(r: &mut Rng, s: &str) -> String {
     let mut c = chars.clone();
     if r.chance(0.25) {
         // numeric-literal trouble: the places where the tokenizers `.unwrap()` a parse
-        let junk_lits = ["1.2.3", "1..2", ".5.5", "99999999999999999999", "0.0.0", "3.", "12345678901234567890123456789012345", "1.e", "7.7.7+1"];
+        let junk_lits = ["1.2.3", "1..2", ".5.5", "99999999999999999999", "0.0.0", "3.", "12345678901234567890123456789012345", "1.e", "7.7.7+1", "3,14", "1,5+@", "2,5*@", "0,5"];
         let lit: Vec<char> = r.pick(&junk_lits).chars().collect();
         // replace the first digit run, or append
         if let Some(p) = c.iter().position(|x| x.is_ascii_digit()) {
